@@ -89,7 +89,8 @@ Keep(s, K) == LET ks == SortedSeq(K \cap (1..Len(s))) IN [j \in 1..Len(ks) |-> s
 SegOf(a, b) == IF LessP(a, b) THEN <<"L", a, a, b, FALSE>> ELSE <<"L", b, b, a, FALSE>>
 IsArc(e) == e.k = "A"
 EntShapes(v, e) ==
-    IF IsArc(e)
+    IF \E i \in 1..Len(e.p) : e.p[i] \notin 1..Len(v) THEN {}        \* (only under the self-test mutants)
+    ELSE IF IsArc(e)
     THEN IF Len(e.p) # 3 THEN {}
          ELSE LET a == v[e.p[1]]  m == v[e.p[2]]  b == v[e.p[3]] IN
               IF LessP(b, a) THEN {<<"A", b, m, a, e.cl>>} ELSE {<<"A", a, m, b, e.cl>>}
@@ -161,6 +162,11 @@ RefVal(P, k) == CASE k = "length" -> LengthOf(P, 1)
                   [] k = "vg"     -> IsClosedOf(P)
 ImplVal(P, k) == IF k = "length" THEN LengthOf(P, IF DevArcLen2 THEN 2 ELSE 1) ELSE RefVal(P, k)
 
+\* which named deviation explains a value that differs from the reference
+ReadDev(P, k, val) == IF val = RefVal(P, k) THEN <<>>
+                      ELSE IF k = "length" /\ HasArc(P) /\ val = ImplVal(P, k) THEN <<"ArcLengthDoubled">>
+                      ELSE <<"EmptyPathScaleRaises">>     \* a value kept across the failed process()
+
 \* -------------------------------------------------- implementation: the cache
 \* Entity._bytes: class name + points in a direction-normalised order (+ the closed flag of an arc)
 CodePts(p) == IF p[1] > p[Len(p)] THEN p ELSE Rev(p)
@@ -189,6 +195,9 @@ DupKey(e, loops) == IF MutDedupeEnds THEN <<e.k, {e.p[1], e.p[Len(e.p)]}>>
 DedupeOp(P, loops) == WithE(P, Keep(P.e, {i \in 1..Len(P.e) :
                                   \A j \in 1..(i - 1) : DupKey(P.e[j], loops) # DupKey(P.e[i], loops)}))
 
+\* the classes of mutually duplicate entities (by ghost id) the property speaks of
+DupClasses(P) == {{P.e[j].u : j \in {q \in 1..Len(P.e) : IntendedKey(P.e[q]) = IntendedKey(P.e[i])}} : i \in 1..Len(P.e)}
+
 \* merge_vertices: reads self.scale (-> extents -> bounds, through the cache), groups equal rows, keeps the
 \* first occurrence of each group, re-points the entities, merges runs, folds a-b-a into a-b, drops lines
 \* with fewer than two and arcs without three points
@@ -204,7 +213,8 @@ MergeCore(P) ==
         ok   == {i \in 1..Len(P.e) : IF IsArc(P.e[i]) THEN Len(pts[i]) = 3 ELSE Len(pts[i]) >= 2}
     IN [P EXCEPT !.v = [j \in 1..Len(reps) |-> v[reps[j]]],
                  !.e = Keep([i \in 1..Len(P.e) |-> [P.e[i] EXCEPT !.p = pts[i]]], ok)]
-MergeOp(P, raises) == IF Len(P.v) = 0 \/ (raises /\ Len(P.e) = 0) THEN P
+MergeOp(P, raises) == IF Len(P.v) = 0 THEN P
+                      ELSE IF raises /\ Len(P.e) = 0 THEN Verify(P)   \* self.scale verified the cache, then bounds raised
                       ELSE MergeCore(DoRead(P, "bounds").path)
 
 \* remove_unreferenced_vertices: reads referenced_vertices (cached), re-points, shortens
@@ -218,8 +228,12 @@ UnrefOp(P) ==
 
 \* process: merge_vertices, remove_duplicate_entities, remove_unreferenced_vertices inside the cache lock;
 \* the cache is emptied and marked current when the lock is left
+\* (inside the lock nothing is verified: a `bounds` left in the cache by an earlier read - even a stale one -
+\*  answers self.scale, and then nothing raises)
+ProcRaises(P) == DevEmptyRaises /\ Len(P.v) > 0 /\ Len(P.e) = 0 /\ P.c["bounds"] = <<>>
 ProcessOp(P, raises, loops) ==
-    IF raises /\ Len(P.v) > 0 /\ Len(P.e) = 0 THEN P
+    IF raises /\ Len(P.v) > 0 /\ Len(P.e) = 0 /\ P.c["bounds"] = <<>>
+    THEN [P EXCEPT !.ck = Key(P)]      \* the exception leaves the lock: Cache.__exit__ marks whatever is stored as current
     ELSE LET Q == UnrefOp(DedupeOp(MergeOp(P, FALSE), loops)) IN [Q EXCEPT !.c = EmptyC, !.ck = Key(Q)]
 
 \* replace_vertex_references(mask): points := mask[points]
@@ -272,7 +286,7 @@ DrawingV(name) ==
       [] name = "tri" -> << <<0, 0>>, <<3, 0>>, <<3, 4>>, <<0, 0>>, <<-1, -1>> >>
       [] name = "arc" -> << <<2, 0>>, <<0, 2>>, <<-2, 0>>, <<2, 0>>, <<0, -2>>, <<5, 5>> >>
       [] name = "pl"  -> << <<0, 0>>, <<1, 0>>, <<1, 2>>, <<1, 0>>, <<0, 0>>, <<3, 3>> >>
-      [] name = "dup" -> << <<0, 0>>, <<0, 2>> >>
+      [] name = "dup" -> << <<5, 5>>, <<0, 0>>, <<0, 2>> >>
 DrawingE(name) ==
     CASE name = "sq"  -> << Ent("L", <<1, 2, 3>>, "a", 1, FALSE, 1), Ent("L", <<3, 4, 5>>, "b", 0, FALSE, 2),
                             Ent("L", <<2, 1>>, "a", 2, FALSE, 3), Ent("L", <<3, 3>>, "c", 0, FALSE, 4),
@@ -285,27 +299,34 @@ DrawingE(name) ==
       [] name = "pl"  -> << Ent("L", <<1, 2, 3>>, "a", 1, FALSE, 1), Ent("L", <<2, 4>>, "b", 0, FALSE, 2),
                             Ent("L", <<1, 2, 1>>, "c", 2, FALSE, 3), Ent("L", <<3, 4, 5>>, "a", 0, FALSE, 4),
                             Ent("L", <<5, 5>>, "b", 1, FALSE, 5) >>
-      [] name = "dup" -> << Ent("L", <<1, 2>>, "a", 1, FALSE, 1), Ent("L", <<1, 2>>, "b", 2, FALSE, 2),
-                            Ent("L", <<2, 1>>, "a", 0, FALSE, 3) >>
+      [] name = "dup" -> << Ent("L", <<2, 3>>, "a", 1, FALSE, 1), Ent("L", <<2, 3>>, "b", 2, FALSE, 2),
+                            Ent("L", <<3, 2>>, "a", 0, FALSE, 3) >>
 AllStarts == {"sq", "tri", "arc", "pl", "dup"}
 StartPath(name) == [v |-> DrawingV(name), e |-> DrawingE(name), ck |-> NoKey, c |-> EmptyC, none |-> FALSE]
 \* the data every entity must keep: by origin id (start drawings have at most 5 entities, ids 1..5)
 Data0(name) == [i \in 1..Len(DrawingE(name)) |-> <<DrawingE(name)[i].l, DrawingE(name)[i].c>>]
 
+\* the second path every history starts with (operand of + / concatenate): another drawing that shares a
+\* coincident vertex with the first; its ghost ids are 11, 12, ...
+Comp(name) == IF name = "dup" THEN "pl" ELSE "dup"
+StashStart(name) == LET P == StartPath(Comp(name)) IN
+                    [P EXCEPT !.e = [i \in 1..Len(P.e) |-> [P.e[i] EXCEPT !.u = 10 + i, !.o = 10 + i]]]
+DataOf(name, o) == IF o > 10 THEN Data0(Comp(name))[o - 10] ELSE Data0(name)[o]
+
 \* lattice symmetries offered to apply_transform: rotation by 90 degrees + shift, mirror in x, translation
 Gs == << <<0, -1, 1, 0, 1, 0>>, <<-1, 0, 0, 1, 0, 0>>, <<1, 0, 0, 1, 2, -3>> >>
 
 \* ------------------------------------------------------------------- emission
-SnapE(e) == [k |-> e.k, p |-> e.p, l |-> e.l, c |-> e.c, cl |-> e.cl, u |-> e.u]
+SnapE(e) == [k |-> e.k, p |-> e.p, l |-> e.l, c |-> e.c, cl |-> e.cl, u |-> e.u, o |-> e.o]
 Snap(P) == IF ~IsPath(P) THEN [none |-> TRUE]
            ELSE [none |-> FALSE, v |-> P.v, e |-> [i \in 1..Len(P.e) |-> SnapE(P.e[i])],
                  dr |-> Draw(P)]
 \* closing sweep: every reader and the per-entity derived values of the final state
 Sweep(P) == IF ~IsPath(P) THEN [none |-> TRUE]
             ELSE [none |-> FALSE,
-                  length |-> RefVal(P, "length"), ilength |-> ImplVal(P, "length"),
-                  bounds |-> RefVal(P, "bounds"), arc |-> HasArc(P),
-                  refd |-> RefVal(P, "refd"), closed |-> RefVal(P, "vg"),
+                  arc |-> HasArc(P),
+                  reads |-> [k \in CKeys |-> [exp |-> RefVal(P, k), got |-> DoRead(P, k).val,
+                                               dev |-> ReadDev(P, k, DoRead(P, k).val)]],
                   ents |-> [i \in 1..Len(P.e) |->
                               [u |-> P.e[i].u, closed |-> EClosed(P.e[i]), valid |-> EValid(P.e[i]),
                                ends |-> EEnds(P.e[i]), nodes |-> ENodes(P.e[i])]]]
@@ -318,18 +339,19 @@ DevIf(pI, pA, id, raised) == IF ~raised /\ pI.v = pA.v /\ pI.e = pA.e THEN <<>> 
 Quiet == last' = [k |-> Nil, val |-> Nil, ref |-> Nil, exc |-> FALSE, op |-> Nil]
 
 Init == \E s \in Starts :
-          /\ cur = StartPath(s) /\ stash = NoPath
-          /\ want = Draw(StartPath(s)) /\ wantS = {}
+          /\ cur = StartPath(s) /\ stash = StashStart(s)
+          /\ want = Draw(StartPath(s)) /\ wantS = Draw(StashStart(s))
           /\ last = [k |-> Nil, val |-> Nil, ref |-> Nil, exc |-> FALSE, op |-> Nil]
-          /\ nuid = Len(DrawingE(s)) + 1
-          /\ hist = <<[op |-> "init", start |-> s, st |-> Snap(StartPath(s))]>>
+          /\ nuid = 21
+          /\ hist = <<[op |-> "init", start |-> s, st |-> Snap(StartPath(s)), sst |-> Snap(StashStart(s))]>>
 
 \* a clean-up (or any operation under which the drawing must not change): post state as built, intended
-CleanStep(op, pA, pI, dev, raised) ==
+CleanStep(op, pA, pI, dev, raised, classes) ==
     /\ cur' = pA /\ UNCHANGED <<stash, wantS, nuid>>
     /\ want' = want
     /\ last' = [k |-> Nil, val |-> Nil, ref |-> Nil, exc |-> raised, op |-> op]
-    /\ Log([op |-> op, st |-> Snap(pA), ist |-> Intended(pI, pA, raised), dev |-> DevIf(pI, pA, dev, raised), exc |-> raised])
+    /\ Log([op |-> op, st |-> Snap(pA), ist |-> Intended(pI, pA, raised), dev |-> DevIf(pI, pA, dev, raised),
+             exc |-> raised, classes |-> classes])
 
 RemoveEntities(S) ==
     /\ "remove" \in Ops /\ S \subseteq 1..Len(cur.e)
@@ -338,17 +360,17 @@ RemoveEntities(S) ==
        /\ want' = UNION {EntShapes(cur.v, cur.e[i]) : i \in (1..Len(cur.e)) \ S}
        /\ Quiet
        /\ Log([op |-> "remove", ids |-> SortedSeq(S), st |-> Snap(pA), ist |-> <<>>, dev |-> <<>>, exc |-> FALSE])
-RemoveInvalid == "clean" \in Ops /\ CleanStep("remove_invalid", RemoveInvalidOp(cur), RemoveInvalidOp(cur), Nil, FALSE)
+RemoveInvalid == "clean" \in Ops /\ CleanStep("remove_invalid", RemoveInvalidOp(cur), RemoveInvalidOp(cur), Nil, FALSE, {})
 RemoveDup == "clean" \in Ops /\ CleanStep("dedupe", DedupeOp(cur, ~DevLoopRevNotDup), DedupeOp(cur, TRUE),
-                                          "ClosedLoopReverseNotDuplicate", FALSE)
+                                          "ClosedLoopReverseNotDuplicate", FALSE, DupClasses(cur))
 Merge   == "clean" \in Ops /\ CleanStep("merge", MergeOp(cur, DevEmptyRaises), MergeOp(cur, FALSE),
-                                        "EmptyPathScaleRaises", MergeRaises(cur))
-Unref   == "clean" \in Ops /\ CleanStep("unref", UnrefOp(cur), UnrefOp(cur), Nil, FALSE)
+                                        "EmptyPathScaleRaises", MergeRaises(cur), {})
+Unref   == "clean" \in Ops /\ CleanStep("unref", UnrefOp(cur), UnrefOp(cur), Nil, FALSE, {})
 Process == /\ "clean" \in Ops
            /\ LET pA == ProcessOp(cur, DevEmptyRaises, ~DevLoopRevNotDup)  pI == ProcessOp(cur, FALSE, TRUE) IN
               CleanStep("process", pA, pI,
-                     IF MergeRaises(cur) THEN "EmptyPathScaleRaises" ELSE "ClosedLoopReverseNotDuplicate",
-                     MergeRaises(cur))
+                     IF ProcRaises(cur) THEN "EmptyPathScaleRaises" ELSE "ClosedLoopReverseNotDuplicate",
+                     ProcRaises(cur), DupClasses(MergeOp(cur, FALSE)))
 \* masks: "twin" sends every vertex to the first vertex with the same coordinates (drawing unchanged);
 \* "rot" is a cyclic shift of the indices (the drawing changes: it is whatever mask[points] resolves to)
 TwinMask == [i \in 1..Len(cur.v) |-> Min({j \in 1..Len(cur.v) : cur.v[j] = cur.v[i]})]
@@ -418,7 +440,7 @@ Read(k) ==
        /\ last' = [k |-> k, val |-> r.val, ref |-> RefVal(cur, k), exc |-> FALSE, op |-> "read"]
        /\ Log([op |-> "read", k |-> k, exp |-> RefVal(cur, k), got |-> r.val, arc |-> HasArc(cur),
                st |-> Snap(cur), ist |-> <<>>,
-               dev |-> IF r.val # RefVal(cur, k) /\ k = "length" /\ HasArc(cur) THEN <<"ArcLengthDoubled">> ELSE <<>>,
+               dev |-> ReadDev(cur, k, r.val),
                exc |-> FALSE])
 
 Bounded == Len(hist) <= MaxDepth
@@ -443,7 +465,7 @@ IndexInRange == \A P \in Paths : \A i \in 1..Len(P.e) : Range(P.e[i].p) \subsete
 \* (1b) the drawing is what the property-level rule says
 DrawingIsWanted == Draw(cur) = want /\ (IsPath(stash) => Draw(stash) = wantS)
 \* (2) layer and colour stay with the entity (pieces of an exploded polyline inherit them)
-DataAttached == \A P \in Paths : \A i \in 1..Len(P.e) : <<P.e[i].l, P.e[i].c>> = Data0(start)[P.e[i].o]
+DataAttached == \A P \in Paths : \A i \in 1..Len(P.e) : <<P.e[i].l, P.e[i].c>> = DataOf(start, P.e[i].o)
 \* (3)+(4) every read returns the value of the current drawing, whatever was read before
 ReadIsCurrent == last.op = "read" => last.val = last.ref
 \* after remove_duplicate_entities no entity is a copy or the reverse of another one
@@ -461,4 +483,11 @@ EmitAll  == PrintT(ToJson(EmitRec))
 EmitLeaf == (Len(hist) = MaxDepth + 1) => PrintT(ToJson(EmitRec))
 OpsAll == {"remove", "clean", "mask", "dir", "explode", "transform", "copy", "concat", "read"}
 OpsNoDir == OpsAll \ {"dir"}
+OpsDir   == {"dir", "clean", "explode", "read"}
+OpsCore  == {"remove", "clean", "read", "copy", "mask"}
+OpsRead  == {"read"}
+OpsExplode == {"explode", "read"}
+OpsClean == {"remove", "clean", "read"}
+OpsMove  == {"transform", "read"}
+StartSq == {"sq"}  StartTri == {"tri"}  StartArc == {"arc"}  StartPl == {"pl"}  StartDup == {"dup"}
 =============================================================================
